@@ -1693,3 +1693,44 @@ Proof.
   destruct (Clean.clean_tasks (Clean.o_dryrun o) (Clean.o_forget o) (map to_clean_task ts) [] _) as [l2 cw2] eqn:E2.
   simpl in E. subst l2. exists cw2. reflexivity.
 Qed.
+
+(* ---- clean --dry-run over targets that are directories (Model/Clean.v, task.py 621-638): one target ---- *)
+(* whatever the target is at that moment -- a regular file, an empty directory, a directory that holds
+   something, nothing at all -- the dry-run prints exactly what the real clean prints for it from the
+   same state and leaves every file, every directory and every DB record as they are *)
+Lemma T_clean_dryrun_target_frame : forall (t : name) (w : Clean.world) (p : Clean.path),
+  Clean.w_fs (Clean.clean_target t true w p) = Clean.w_fs w /\
+  Clean.w_db (Clean.clean_target t true w p) = Clean.w_db w /\
+  Clean.w_ev (Clean.clean_target t true w p) = Clean.w_ev (Clean.clean_target t false w p).
+Proof.
+  intros t w p. unfold Clean.clean_target.
+  destruct (Clean.fs_get (Clean.w_fs w) p) as [[|]|]; simpl; auto.
+  destruct (Clean.fs_nonempty (Clean.w_fs w) p); simpl; auto.
+Qed.
+
+(* all the targets of a task (`clean: True`), in the order of clean_targets: nothing changes, so every
+   target is judged in the state the command started in -- an empty directory is announced as removed and
+   is still there, a directory holding only files that are targets too is reported as not empty (the
+   real clean would have removed the files first, and then the directory) *)
+Lemma clean_targets_dry_fold : forall (t : name) (ps : list Clean.path) (w : Clean.world),
+  Clean.w_fs (fold_left (Clean.clean_target t true) ps w) = Clean.w_fs w /\
+  Clean.w_db (fold_left (Clean.clean_target t true) ps w) = Clean.w_db w.
+Proof.
+  intros t ps. induction ps as [|p ps IH]; intros w; simpl; auto.
+  destruct (IH (Clean.clean_target t true w p)) as [A B].
+  destruct (T_clean_dryrun_target_frame t w p) as (C & D & _).
+  rewrite A, B, C, D. auto.
+Qed.
+Lemma T_clean_dryrun_targets_frame : forall (t : Clean.task) (w : Clean.world),
+  Clean.w_fs (Clean.clean_targets t true w) = Clean.w_fs w /\
+  Clean.w_db (Clean.clean_targets t true w) = Clean.w_db w.
+Proof. intros t w. unfold Clean.clean_targets. apply clean_targets_dry_fold. Qed.
+
+(* an empty directory that is a target: the dry-run says it would be removed, the real clean removes it *)
+Lemma T_clean_empty_dir_target : forall (t : name) (w : Clean.world) (p : Clean.path),
+  Clean.fs_get (Clean.w_fs w) p = Some Clean.KDir -> Clean.fs_nonempty (Clean.w_fs w) p = false ->
+  Clean.clean_target t true w p = Clean.emit w (Clean.EMsgDir t p) /\
+  Clean.w_fs (Clean.clean_target t false w p) = Clean.fs_remove (Clean.w_fs w) p.
+Proof.
+  intros t w p H1 H2. unfold Clean.clean_target. rewrite H1, H2. simpl. auto.
+Qed.
